@@ -60,6 +60,8 @@ type FuncContract struct {
 	External bool // from /verif/specs/ext
 	NoTerm   bool // termination not claimed
 	Asserts  []*Clause
+	OptHooks  map[string]bool // callsite X?: hooks that may match no call
+	DynPure   []string // dyncall <name>: modifies nothing
 	CallSites map[string][]*Clause // callee short name -> assertions evaluated at every call to it
 	Ghosts    []*GhostVar
 	GhostUps  []*GhostUpdate
@@ -126,7 +128,7 @@ var tagRe = regexp.MustCompile(`^\[([A-Za-z0-9_, ]+)(?::([A-Za-z0-9_\-\.]+))?\]\
 var keywords = map[string]bool{
 	"func": true, "props": true, "requires": true, "ensures": true, "modifies": true,
 	"loop": true, "invariant": true, "decreases": true, "inline": true, "trusted": true,
-	"pure": true, "unroll": true, "spec": true, "package": true, "noterm": true, "assert": true, "axiom": true, "lemma": true, "callsite": true, "ghost": true, "onassign": true, "oncall": true, "aftercall": true, "closure": true, "chaninv": true, "assumecall": true,
+	"pure": true, "unroll": true, "spec": true, "package": true, "noterm": true, "assert": true, "axiom": true, "lemma": true, "callsite": true, "ghost": true, "onassign": true, "oncall": true, "aftercall": true, "closure": true, "chaninv": true, "assumecall": true, "dyncall": true,
 }
 
 // LoadFile parses a contract file. pkgPath is the default package path
@@ -364,6 +366,14 @@ func (cs *Contracts) LoadFile(path string, pkgPath string, external bool) error 
 				}
 				gu.E = e
 				cur.GhostUps = append(cur.GhostUps, gu)
+			case "dyncall":
+				// dyncall <name>: modifies nothing -- calls through the function value whose source expression ends
+				// in <name> (a field or variable holding a callback) are assumed not to touch the modelled heap
+				i := strings.Index(rest, ":")
+				if i < 0 || strings.TrimSpace(rest[i+1:]) != "modifies nothing" {
+					return errf("dyncall needs '<name>: modifies nothing'")
+				}
+				cur.DynPure = append(cur.DynPure, strings.TrimSpace(rest[:i]))
 			case "assumecall":
 				// assumecall <callee>: <expr over argN / retN>  -- an assumption about what a dependency
 				// returns, stated where it is used; listed with the trusted base in the evidence
@@ -383,6 +393,13 @@ func (cs *Contracts) LoadFile(path string, pkgPath string, external bool) error 
 					return errf("callsite needs '<callee>: <expr>'")
 				}
 				callee := strings.TrimSpace(rest[:i])
+				if strings.HasSuffix(callee, "?") { // the function need not call it at all
+					callee = strings.TrimSuffix(callee, "?")
+					if cur.OptHooks == nil {
+						cur.OptHooks = map[string]bool{}
+					}
+					cur.OptHooks[callee] = true
+				}
 				body := strings.TrimSpace(rest[i+1:])
 				c := &Clause{Kind: "callsite", File: path, Line: l.line}
 				if m := tagRe.FindStringSubmatch(body); m != nil {
